@@ -23,12 +23,28 @@ def run(tier, seed):
     n, steps = (20, 450) if tier == "quick" else (200, 900)
     jobs = q.make_jobs(rng, q.CONFIGS, n, steps, extra=["--bias", "range"])
     viol, st = q.run_engine(PROP, tier, seed, INV, jobs, rd, fxv)
+    # concurrent part: scans racing with inserts/updates/deletes of neighbouring keys (LinTrace RangeStable:
+    # stable keys inside the returned window exactly once, keys absent for the whole scan never, genuine values,
+    # ascending order; both indexes agree at quiescence)
+    import concengine as ce
+    from checks.c07 import collect
+    cst = {"traces": 0, "states": 0, "transitions": 0, "schedules": 0, "stalls": 0, "events": 0}
+    res = ce.run_dfs(fxv, rd, ce.range_family(), "range", maxsched=500 if tier == "quick" else 4000,
+                     preempt=2 if tier == "quick" else 3)
+    collect(PROP, res, rd, ["RangeStable"], viol, cst)
+    free = [("free_rng_%d" % i, ["--seed", str(rng.randrange(1 << 30)), "--threads", "3", "--ops", "25", "--keys", "4",
+                                 "--rounds", "20"]) for i in range(4 if tier == "quick" else 24)]
+    free += [("free_rngp_%d" % i, ["--seed", str(rng.randrange(1 << 30)), "--threads", "3", "--ops", "20", "--keys", "4",
+                                  "--rounds", "6", "--pers", "1", "--blocks", "56"]) for i in range(2 if tier == "quick" else 10)]
+    collect(PROP, ce.run_free(fxv, rd, free), rd, ["RangeStable"], viol, cst)
+    st["traces"] += cst["traces"]; st["states"] += cst["states"]; st["transitions"] += cst["transitions"]
+    st["events"] += cst["events"]
     cov = q.coverage_dict(
         st, sum(r.distinct for r in mc), sum(r.generated for r in mc),
         "one trace = one seeded program with a range_query (bounds: keys, prefixes, extensions, empty, "
         "0xFF.., start > end; limits 0..n+1) after about every third call, with expired and offloaded "
         "entries present; result compared element-wise (keys and values) with the model",
-        q.sample_events(st["sample_trace"]))
+        q.sample_events(st["sample_trace"]), extra={"concurrent_schedules": cst["schedules"]})
     return {"level": "model_checking", "coverage": cov, "violations": viol,
             "assumptions": ["bounds are projected to ranks in the (sorted) key universe of the run"]}
 
